@@ -185,6 +185,37 @@ def notFnCall (tid : Nat) (q : Cat) (pred : Bool) (args : List Arg) : Bool × Lo
 /-- `apply(f, t)` = `invoke(f, get<0>(t), …, get<n-1>(t))`, the elements with the tuple's category -/
 def apply (f : Callee) (tc : Cat) (t : List Int) : Int × Log := invoke f (t.map (fun v => (.fwd tc, v)))
 
+/-- `apply(pm, t)`, `pm` a pointer to member, the first element of `t` the object: `INVOKE(pm, obj, rest...)` with the
+    object and the other elements in the tuple's category -/
+def applyMember (mk : ObjK → Callee) (tc : Cat) (rest : List Int) : Int × Log :=
+  invoke (mk (.obj tc)) (rest.map (fun v => (.fwd tc, v)))
+
+/-- `not_fn(f)(args...)` / `not_fn<f>()(args...)` for any callable: `!INVOKE(f, args...)` -/
+def notFnOf (f : Callee) (pred : Bool) (args : List Arg) : Bool × Log := (!pred, (invoke f args).2)
+
+/-- `bind_front(pm, obj)(args...)` through a `q`-qualified wrapper: `INVOKE(pm, q-qualified stored obj, args...)`; a stored
+    pointer or reference_wrapper designates the same object whatever the wrapper's qualification -/
+def bindFrontMember (mk : ObjK → Callee) (q : Cat) (o : BoundObj) (args : List Arg) : Int × Log :=
+  match o with
+  | .obj => invoke (mk (.obj q)) args
+  | .ptr pc => invoke (mk (.ptr pc)) args
+  | .refw pc => invoke (mk (.refw pc)) args
+
+/-! ### reference_wrapper / function_ref as objects
+
+Which target does wrapper `w` designate after a history?  Resolved *backwards* over the history read from its most
+recent operation: find the last operation that wrote `w`; a binding names the target, a copy / assignment from `v` defers
+to what `v` designated before that operation.  (The model executes the operations forwards on the pointer members;
+`Props.refPtrs_designates` relates the two.) -/
+def designatesRev : List RefOp → Nat → Option Nat
+  | [], _ => none
+  | .bind w' tid :: h, w => if w = w' then some tid else designatesRev h w
+  | .copy w' v :: h, w => if w = w' then designatesRev h v else designatesRev h w
+  | .assign w' v :: h, w => if w = w' then designatesRev h v else designatesRev h w
+
+/-- the target wrapper `w` designates after the history `ops` (oldest first) -/
+def designates (ops : List RefOp) (w : Nat) : Option Nat := designatesRev ops.reverse w
+
 /-! ## the owning wrapper: an object either holds a target or is empty -/
 
 abbrev ASt := Nat → Option Fn
@@ -211,6 +242,9 @@ def step (s : ASt) : Op → ASt × Out × Log
     | none => (s, .res .bad, [])
     | some f => (set s i (some { f with n := f.n + 1 }), .res (.ret (fnResult f x)), [fnLog f x])
   | .bool i => (s, .flag (s i).isSome, [])
+  | .fswap i j => (set (set s i (s j)) j (s i), .unit, [])     -- free swap: exchange
+  | .eqNull i => (s, .flag (s i).isNone, [])                   -- equal to nullptr iff empty
+  | .neNull i => (s, .flag (s i).isSome, [])
 
 def run : ASt → List Op → ASt × List Out × Log
   | s, [] => (s, [], [])
